@@ -23,6 +23,15 @@ def sh(cmd, cwd, timeout=900, env=ENV):
 
 
 def suite(repo):
+    # one suite at a time on this machine: TestFlame_Run binds a fixed port, and
+    # several matrix streams (tools/parmatrix.sh) would knock each other over
+    import fcntl
+    with open("/tmp/flamego-suite.lock", "w") as lk:
+        fcntl.flock(lk, fcntl.LOCK_EX)
+        return _suite(repo)
+
+
+def _suite(repo):
     want = set(BASE["stable_pass"])
     for attempt in range(4):
         rc, out = sh(["go", "test", "-json", "-vet=off", "-count=1", "./..."], repo)
